@@ -5,7 +5,7 @@ From Coq Require Import List NArith Bool Lia ZifyN ZifyNat ZifyBool Permutation 
 From FS Require Import Sx Model.Path Model.Stat Model.Validator Model.Hardlinks Model.Diff Model.AbsDest
   Model.Varint Model.Codec Model.MetaBuffer Model.Listing Model.Converge Model.ConvergeA
   Model.MetaOnly Model.MetaTransfer
-  Proofs.Lex Proofs.PathP Proofs.ValidatorP Proofs.VarintP Proofs.DiffP Proofs.ConvergeP Proofs.MetaOnlyP.
+  Proofs.Lex Proofs.PathP Proofs.ValidatorP Proofs.VarintP Proofs.DiffP Proofs.ConvergeP Proofs.MetaOnlyP Proofs.MetaAcceptP.
 From FS Require Proofs.RefValidP Proofs.ListingP.
 From FS Require Properties.C01 Properties.C02 Properties.C20.
 Import ListNotations.
@@ -93,7 +93,7 @@ Qed.
 Lemma is_hardlink_facts s : is_hardlink s = true -> hl_plain s = true /\ has_link s = true.
 Proof.
   unfold is_hardlink, has_link. intros H. apply andb_true_iff in H. destruct H as [Hr He].
-  split; [apply is_reg_plain; exact Hr|]. destruct (st_linkname s); [discriminate|reflexivity].
+  split; [exact Hr|]. destruct (st_linkname s); [discriminate|reflexivity].  (* is_node IS hl_plain *)
 Qed.
 
 Section Proj.
@@ -191,10 +191,10 @@ Proof.
 Qed.
 
 Theorem proj_wf_entries B :
-  wf_entries B -> listing_dependents (map fst B) = false -> link_closed sel (recv_stream (map fst B)) = true ->
+  wf_entries B -> listing_dependents (map fst B) = false -> recv_accepts sel (map fst B) = true ->
   wf_entries (meta_proj sel B).
 Proof.
-  intros [[HS HC] HL] Hnd Hlc. split; [split|].
+  intros [[HS HC] HL] Hnd Hacc. pose proof (accepts_link_closed_proof sel _ Hacc) as Hlc. split; [split|].
   - rewrite proj_stats. apply sorted_filter. exact HS.
   - rewrite proj_stats. apply proj_closed; auto.
   - apply proj_links_canon; auto.
@@ -204,7 +204,7 @@ Qed.
    (a stale listing file, symlink or directory of the prior destination is removed) *)
 Theorem meta_transfer_converges_proof (H : bytes -> bytes) (hdr : stat -> bytes) d A B :
   wf_entries A -> wf_entries B ->
-  listing_dependents (map fst B) = false -> link_closed sel (recv_stream (map fst B)) = true ->
+  listing_dependents (map fst B) = false -> recv_accepts sel (map fst B) = true ->
   AbsDest.identity_faithful d A (meta_proj sel B) ->
   let r := receive_abs H hdr Fresh d A (meta_proj sel B) in
   ds_err r = false /\ approx A (meta_proj sel B) (view_of (ds_map r)) /\
@@ -316,7 +316,7 @@ Qed.
 
 Theorem meta_req_ids_proof (H : bytes -> bytes) (hdr : stat -> bytes) d A B :
   wf_entries A -> wf_entries B ->
-  listing_dependents (map fst B) = false -> link_closed sel (recv_stream (map fst B)) = true ->
+  listing_dependents (map fst B) = false -> recv_accepts sel (map fst B) = true ->
   AbsDest.identity_faithful d A (meta_proj sel B) ->
   (forall s, In s (map fst B) -> wants_content s = true -> mode_is_regular (st_mode s) = true) ->
   req_ids (r_files (meta_recv sel (map fst B))) (ds_reqs (receive_abs H hdr Fresh d A (meta_proj sel B)))
